@@ -38,6 +38,7 @@ type LifeOpts struct {
 	Terminate bool
 	Renew     bool
 	Pending   bool  // offer stores relayed by the owner's own account (order stays pending) + Ready; needs SidOwner
+	Regenesis bool  // offer "export the six custom modules and re-initialise them from the export" as an environment move
 	SidOwner  bool  // the owner is a did:sid identity bound to account T (only such accounts can submit their own requests)
 	Sponsor   bool  // offer sponsored stores (payer P)
 	NoOwnerPA bool  // the owner DID never sets a payment address (refunds are parked for the DID)
@@ -317,6 +318,9 @@ func lifeOps0(w *world.World, ctx sdk.Context, o LifeOpts) []engine.Op {
 		}
 	}
 	out = append(out, AdvanceOps(w, ctx, o.Mid, o.MaxHeight)...)
+	if o.Regenesis {
+		out = append(out, RegenesisOp())
+	}
 	return out
 }
 
